@@ -58,6 +58,33 @@ pub fn run(r: &mut Report) {
                "one outcome", format!("{} distinct outcomes: {:?}", seen.len(), seen), seen.len() == 1);
     }
 
+    // the same co-signed link filed under both of its signers, plus a differing link of a third functionary whose key id lies between
+    // theirs (threshold 1: no agreement is required, but the representative link and the verdict must not vary)
+    {
+        let owner = key(1);
+        let mut pool: Vec<_> = (0..5).map(|_| fresh_key()).collect();
+        pool.sort_by(|a, b| a.key_id().cmp(b.key_id()));
+        for (x, z, y) in [(0usize, 1usize, 2usize), (0, 2, 4), (1, 2, 3)] {
+            for strict_products in [false, true] {
+                let d = tmpdir();
+                let cosigned = signed_link(&link("a", &[], &[("p", 1)]), &[&pool[x], &pool[y]]);
+                write_link(d.path(), "a", pool[x].key_id(), &cosigned);
+                write_link(d.path(), "a", pool[y].key_id(), &cosigned);
+                write_link(d.path(), "a", pool[z].key_id(), &signed_link(&link("a", &[], &[("q", 2)]), &[&pool[z]]));
+                let prules = if strict_products { vec![ArtifactRule::Allow(VirtualTargetPath::new("p".into()).unwrap()), ArtifactRule::Disallow(VirtualTargetPath::new("*".into()).unwrap())] } else { allow_all() };
+                let ks = [&pool[x], &pool[z], &pool[y]];
+                let lay = signed_layout(&layout(vec![step("a", 1, &ks, allow_all(), prules)], vec![], &ks, 30), &[&owner]);
+                let mut seen = BTreeSet::new();
+                let reps = crate::util::scale(40, 200);
+                for _ in 0..reps {
+                    let res = no_panic(|| in_toto_verify(&lay, owner_keys(&[&owner]), d.path().to_str().unwrap(), None));
+                    seen.insert(match &res { Ok(v) => verdict(v), Err(p) => format!("panic: {}", p) });
+                }
+                r.case("co-signed-link-under-both-signers-plus-a-third", json!({"key_ranks": [x, z, y], "product_rules": if strict_products { "ALLOW p; DISALLOW *" } else { "ALLOW *" }, "repetitions": reps}),
+                       "one outcome", format!("{} distinct outcomes: {:?}", seen.len(), seen), seen.len() == 1);
+            }
+        }
+    }
     // links whose recorded `name` is another step's name (the verifier goes by the file a link is filed in): a MATCH .. FROM that
     // other step must keep reading that step's own link, on every run
     for (id, audit_records) in [("misnamed-link-of-another-step", "build"), ("all-links-record-one-name", "final"), ("honest-names", "audit")] {
